@@ -358,3 +358,42 @@ fn var_grad_range_dim1() {
 fn var_grad_nd_dim2() {
     body_grad::<2>(false);
 }
+
+// ------------------------------------------------------------------------------------------------
+// finite / non-zero predicates (C05.3 / C17: the whole-vector predicates agree with the scalar tests)
+//   array_all_finite(v)              == every element is finite
+//   array_all_finite_and_nonzero(v)  == every element is finite and != 0   (subnormals ARE non-zero)
+// dim = 1 over all f64 bit patterns is complete for one element; dim = 3 is a bounded check of the
+// conjunction over the elements.
+// ------------------------------------------------------------------------------------------------
+fn body_finite<const D: usize>() {
+    let mut math = mk(D);
+    let vals: [f64; D] = any_arr();
+    let v = vec_of(&mut math, &vals);
+    let mut all_fin = true;
+    let mut all_fin_nz = true;
+    let mut i = 0;
+    while i < D {
+        // scalar reference written with bit tests only (no call into the code under test)
+        let bits = vals[i].to_bits();
+        let exp_all_ones = (bits >> 52) & 0x7ff == 0x7ff;        // inf or NaN
+        let is_zero = bits << 1 == 0;                            // +0.0 or -0.0
+        all_fin = all_fin && !exp_all_ones;
+        all_fin_nz = all_fin_nz && !exp_all_ones && !is_zero;
+        i += 1;
+    }
+    assert!(math.array_all_finite(&v) == all_fin, "array_all_finite agrees with the scalar test");
+    assert!(math.array_all_finite_and_nonzero(&v) == all_fin_nz, "array_all_finite_and_nonzero agrees with the scalar test");
+}
+
+#[kani::proof]
+#[kani::unwind(4)]
+fn finite_pred_dim1() {
+    body_finite::<1>();
+}
+
+#[kani::proof]
+#[kani::unwind(6)]
+fn finite_pred_dim3() {
+    body_finite::<3>();
+}
